@@ -8,7 +8,7 @@ import re
 from harness import core, htmlnorm, treegen, trees, xdoc
 
 GEN = ['gen_tables', 'gen_regex', 'gen_config', 'gen_escapes', 'gen_core']
-THEOREMS = ['C03_fragment_sentence_instance', 'C03_mixed_phrases', 'C03_mixed_phrases_instance', 'C03_link_phrases', 'C03_link_phrases_instance', 'C03_link_in_sentence', 'C03_fragment_link_instance', 'C03_fragment_seq_document', 'C03_fragment_seq_html', 'C03_fragment_lists_instance', 'C03_fragment_inert_instance', 'C03_fragment_emphasis_instance', 'C03_fragment_rules_instance', 'C03_thematic_break', 'C03_thematic_configs', 'C03_setext_heading', 'C03_setext_hypotheses', 'C03_indented_code_block', 'C03_indented_code_hypotheses', 'C03_link_scanners_are_the_source', 'C03_fragment_parses', 'C03_fragment_token_tree', 'C03_fragment_hypotheses', 'C03_fragment_fuel_suffices', 'C03_fragment_document',
+THEOREMS = ['C03_code_in_sentence', 'C03_code_in_sentence_hypotheses', 'C03_fragment_code_instance', 'C03_fragment_sentence_instance', 'C03_mixed_phrases', 'C03_mixed_phrases_instance', 'C03_link_phrases', 'C03_link_phrases_instance', 'C03_link_in_sentence', 'C03_fragment_link_instance', 'C03_fragment_seq_document', 'C03_fragment_seq_html', 'C03_fragment_lists_instance', 'C03_fragment_inert_instance', 'C03_fragment_emphasis_instance', 'C03_fragment_rules_instance', 'C03_thematic_break', 'C03_thematic_configs', 'C03_setext_heading', 'C03_setext_hypotheses', 'C03_indented_code_block', 'C03_indented_code_hypotheses', 'C03_link_scanners_are_the_source', 'C03_fragment_parses', 'C03_fragment_token_tree', 'C03_fragment_hypotheses', 'C03_fragment_fuel_suffices', 'C03_fragment_document',
             'C03_fragment_html', 'C03_fragment_markdown_html', 'C03_fragment_html_instance', 'C03_fragment_paragraph_lines_instance', 'C03_fragment_headings_instance', 'C03_outline_lists', 'C03_outline_html', 'C03_outline_instance',
             'C03_fragment_document_markdown', 'C03_fragment_document_configs', 'C03_bounded_trees', 'C03_family_is_not_vacuous']
 TRUSTED = ['harness/treegen.py: the tree grammar, the speller (every free choice drawn and counted) and the direct HTML writer - the independent oracle; '
@@ -92,6 +92,9 @@ EM_WORDS = ['alpha', 'b', 'Zed', 'x1', 'end.', 'q)', '(r', 'a-b', 'c+d', 'e=f', 
 EM_INNER = ['this', 'Zed', 'x1', 'two', 'a-b', 'q, r', '2.5', 'é', '中']
 SENT_SEPS = [' and ', ', ', '. Then ', ' (', ') ', ': "', '" ', '.', ' x y, ', '; ', ' ']
 LINK_DESTS = ['http://ex.am/a_b*c?d=e#f', '/p/q.html', 'x', '#frag', '../rel?a=b+c', 'mailto:me@ex.am', 'ftp://h/%20x', 'é/中', 'a[1]', 'x_y_z', '*']
+# the content of a code span (leaf FTick, C03_code_in_sentence): any characters but backticks and the characters a regex span finder needs
+CODE_SPANS = ['x', 'f(*a, **b)', '_x_', '*a*', '**b**', '[x](y)', '![i](u)', 'a[0]', ' x ', '  ', ' ', 'a  b', ' lead', 'trail ', 'x > y', '"q"', "'s'", 'é中', ']', '[',
+              '__init__', '1 * 2 * 3', ' a b ', 'a>b', '*', '_', '](', '#', '- x', ' * ', 'a]b[c', '   x   ']
 FRAG_CODE = ['code', '  x = 1', '', '# not a heading', '- not a list', '> not a quote', '    deep', '*a*', '<b>', '| a |', '[x]: /y', 'a  b  ']
 
 
@@ -119,6 +122,10 @@ def frag_tree(rng, depth):
             # the text after the last segment: it too begins and ends with white space or punctuation (the theorem asks it of every segment), and the line must not end with white space
             segs[-1] = segs[-1][:-1] + (rng.choice(['.', ') .', ', x.', '"', '; ok.'] + ([''] if segs[-1][0] == 'lk' else [])),)
             return ('s', t0, segs)
+        if rng.random() < 0.12:                              # a one-line paragraph with one code span (leaf FTick)
+            pre = ' '.join([rng.choice(FRAG_FIRST)] + [rng.choice(EM_WORDS) for _ in range(rng.randint(0, 3))]) + rng.choice([' ', ' (', ', ', ': "', ''])
+            post = rng.choice(['', '.', ' end', ', then more', ')', '" ok', '; z', '?x', 's'])
+            return ('c', pre, rng.choice(CODE_SPANS), post)
         if rng.random() < 0.12:                              # a one-line paragraph with one inline link (leaf FLink)
             pre = ' '.join([rng.choice(FRAG_FIRST)] + [rng.choice(EM_WORDS) for _ in range(rng.randint(0, 3))]) + rng.choice([' ', ' (', ', ', ': "'])
             w = ' '.join(rng.choice(EM_INNER) for _ in range(rng.randint(1, 3)))
@@ -197,6 +204,8 @@ def frag_gallina(t):
         return '(FEm %d %s %d %s %s %s)' % (ord(t[1][0]), _zl(t[1][1:]), ord(t[2][0]), 'true' if len(t[2]) == 2 else 'false', _zl(t[3]), _zl(t[4]))
     if t[0] == 'k':
         return '(FLink %d %s %s %s %s)' % (ord(t[1][0]), _zl(t[1][1:]), _zl(t[2]), _zl(t[3]), _zl(t[4]))
+    if t[0] == 'c':
+        return '(FTick %d %s %s %s)' % (ord(t[1][0]), _zl(t[1][1:]), _zl(t[2]), _zl(t[3]))
     if t[0] == 's':
         segs = '; '.join('(MEm %d %d %s %s)' % (ord(g[1]), g[2] - 1, _zl(g[3]), _zl(g[4])) if g[0] == 'em' else '(MLk %s %s %s)' % (_zl(g[1]), _zl(g[2]), _zl(g[3])) for g in t[2])
         return '(FSent %d %s [%s])' % (ord(t[1][0]), _zl(t[1][1:]), segs)
@@ -222,7 +231,7 @@ def _frag_wf_shard(arg):
     os.makedirs(d, exist_ok=True)
     path = os.path.join(d, 'C03Cases%d.v' % k)
     with open(path, 'w') as f:
-        f.write('From Coq Require Import ZArith List Bool.\nFrom Mistletoe Require Import Base.Sx Base.PyStr Base.PyText Proofs.ListLaw Proofs.MixPhrases Spec.Fragment Proofs.FragmentP.\n'
+        f.write('From Coq Require Import ZArith List Bool.\nFrom Mistletoe Require Import Base.Sx Base.PyStr Base.PyText Proofs.ListLaw Proofs.MixPhrases Proofs.CodeSpan Spec.Fragment Proofs.FragmentP.\n'
                 'Import ListNotations.\nOpen Scope Z_scope.\nDefinition ts : list ftree := [\n  %s].\n'
                 'Eval vm_compute in map (fun t => (wf_b t, concat (text_of (spell t)))) ts.\n' % ';\n  '.join(frag_gallina(t) for t in ts))
     rc, out = core.sh(['coqc', '-Q', 'theories', 'Mistletoe', path], timeout=900, cwd=os.path.join(core.ROOT, 'coq'))
@@ -265,6 +274,8 @@ def frag_spell(t):
         return [t[1] + t[2] + t[3] + t[2] + t[4]]
     if t[0] == 'k':
         return [t[1] + '[' + t[2] + '](' + t[3] + ')' + t[4]]
+    if t[0] == 'c':
+        return [t[1] + '`' + t[2] + '`' + t[3]]
     if t[0] == 's':
         return [t[1] + ''.join(g[1] * g[2] + g[3] + g[1] * g[2] + g[4] if g[0] == 'em' else '[' + g[1] + '](' + g[2] + ')' + g[3] for g in t[2])]
     if t[0] == 'f':
@@ -280,6 +291,13 @@ def frag_spell(t):
     w = len(t[1]) + t[2]
     item = [t[1] + ' ' * t[2] + inner[0]] + [(' ' * w + l) if l else '' for l in inner[1:]]
     return item + ([''] if t[5] else []) + frag_spell(t[4]) if t[0] == 'm' else item
+
+
+def code_parts(code):
+    """(padding, content) of a code span: one space stripped on each side when both are there and the code is not all spaces"""
+    if code.strip(' ') and code.startswith(' ') and code.endswith(' '):
+        return ' ', code[1:-1]
+    return '', code
 
 
 def frag_expect(t, ln):
@@ -301,6 +319,9 @@ def frag_expect(t, ln):
     if t[0] == 'k':
         lk = [trees.TAGS['Link'], t[3], '', 'uri', [], '', [[0, t[2]]]]
         return [trees.TAGS['Paragraph'], [[0, t[1]], lk] + ([[0, t[4]]] if t[4] else [])], [ln]
+    if t[0] == 'c':
+        pad, content = code_parts(t[2])
+        return [trees.TAGS['Paragraph'], [[0, t[1]], [trees.TAGS['InlineCode'], '`', pad, content]] + ([[0, t[3]]] if t[3] else [])], [ln]
     if t[0] == 's':
         ch = [[0, t[1]]]
         for g in t[2]:
@@ -352,6 +373,9 @@ def frag_html(t, tight):
         tag = 'strong' if len(t[2]) == 2 else 'em'
         inner = esc(t[1]) + '<%s>%s</%s>' % (tag, esc(t[3]), tag) + esc(t[4])
         return inner if tight else '<p>' + inner + '</p>'
+    if t[0] == 'c':
+        inner = esc(t[1]) + '<code>' + esc(code_parts(t[2])[1]) + '</code>' + esc(t[3])
+        return inner if tight else '<p>' + inner + '</p>'
     if t[0] == 's':
         from urllib.parse import quote
         inner = esc(t[1])
@@ -381,7 +405,7 @@ def frag_html(t, tight):
                 break
             node = node[4]
         tgl = not any(len(nd[3]) > 1 or (nd[0] == 'm' and nd[5]) for nd in nodes)
-        lis = ['<li>' + ('' if tgl and nd[3][0][0] in 'peks' else '\n') + '\n'.join(frag_html(k, tgl) for k in nd[3]) + ('' if tgl and nd[3][-1][0] in 'peks' else '\n') + '</li>' for nd in nodes]
+        lis = ['<li>' + ('' if tgl and nd[3][0][0] in 'peksc' else '\n') + '\n'.join(frag_html(k, tgl) for k in nd[3]) + ('' if tgl and nd[3][-1][0] in 'peksc' else '\n') + '</li>' for nd in nodes]
         if len(t[1]) == 1:
             return '<ul>\n' + '\n'.join(lis) + '\n</ul>'
         n = int(t[1][:-1])
@@ -391,8 +415,8 @@ def frag_html(t, tight):
     else:
         n = int(t[1][:-1])
         op, cl = ('<ol>' if n == 1 else '<ol start="%d">' % n), '</ol>'
-    return (op + '\n<li>' + ('' if tg and kids[0][0] in 'peks' else '\n') + '\n'.join(frag_html(k, tg) for k in kids)
-            + ('' if tg and kids[-1][0] in 'peks' else '\n') + '</li>\n' + cl)
+    return (op + '\n<li>' + ('' if tg and kids[0][0] in 'peksc' else '\n') + '\n'.join(frag_html(k, tg) for k in kids)
+            + ('' if tg and kids[-1][0] in 'peksc' else '\n') + '</li>\n' + cl)
 
 
 def outline_forest(rng, depth, width):
@@ -649,13 +673,23 @@ def run(ctx, only=None):
         text, exp = text.rstrip(' '), exp.rstrip(' ')
         ljobs.append((text + '\n', '<p>' + exp + '</p>\n'))
         ctx.count('mixed_sentences')
+    # ... and the class of C03_code_in_sentence: one code span in a sentence, its content holding any delimiters
+    for _ in range(400 if ctx.quick() else 8000):
+        pre = rng.choice(['', 'see ', 'a: ', '(', 'x ', 'so, ', 'call', 'é '])
+        code = rng.choice(CODE_SPANS) if rng.random() < 0.6 else ''.join(rng.choice('ab *_[]()!#>-"\' .:é') for _ in range(rng.randint(1, 12)))
+        post = rng.choice(['', '.', ' end', ', then more', ')', '" ok', '; z', 's'])
+        if not (pre + '`' + code).strip(' ') or (pre == '' and False):
+            continue
+        text = pre + '`' + code + '`' + post
+        ljobs.append((text + '\n', '<p>' + escq(pre) + '<code>' + escq(code_parts(code)[1]) + '</code>' + escq(post) + '</p>\n'))
+        ctx.count('code_sentences')
     with mp.Pool(core.NPROC) as pool:
         lres = pool.map(markdown_worker, [t for t, _ in ljobs], chunksize=50)
     for (text, want), got in zip(ljobs, lres):
         ctx.count('evaluations')
         ctx.count('link_sentences')
         if got != want:
-            ctx.failing.append({'interface': 'oracle(link sentence)', 'input': {'text': text}, 'what': 'a sentence with several inline links is not its text with one link per [text](destination)',
+            ctx.failing.append({'interface': 'oracle(link sentence)', 'input': {'text': text}, 'what': 'a sentence with inline links, emphasised phrases or a code span is not its text with one element per construct written',
                                 'observed': got, 'expected': want, 'kf': None})
     # the outline lists of the second unbounded theorem, on the implementation
     ojobs = [rng.randint(0, 2 ** 40) for _ in range(800 if ctx.quick() else 20000)]
